@@ -33,8 +33,8 @@ fn query_with(n: u8) -> IterativeQuery {
 }
 
 //@ ob: C07.O1
-//@ tier: thorough
-//@ cap: 2400
+//@ tier: off
+//@ cap: 3000
 //@ standins: tracing vcoll
 //@ desc: closest_candidates() is exactly the not-yet-visited addresses among the first min(20, len) entries of the candidate list, in that order: with 22 ordered candidates and a symbolic visited subset of {0, 10, 19, 20, 21}, candidates 20 and 21 are never proposed, visited ones are never proposed again, every other one of the first 20 is
 //@ bounds: 22 concrete candidates; 5 symbolic visited bits; unwind 24
